@@ -31,3 +31,6 @@ def run(ctx, rep):
     more4.rule_row_block(mod, rep)
     from ..rules import more5
     more5.rule_snode_tests(mod, rep)
+    from ..rules import more6
+    import re as _re
+    more6.rule_precision_family(mod, rep, floor=100, sel=lambda f: _re.match(r"p[sdcz]gstrf", f.name) is not None)
